@@ -33,11 +33,8 @@ def main(tier, seed):
     oracle = vfsrun.setup(chk)
     try:
         part_a(chk, oracle, jobs, B['a'], 'dev')
-        try:
-            from . import c15b
-            c15b.run(chk, tier, jobs)
-        except ImportError:
-            pass
+        from . import c15b
+        c15b.run(chk, tier, jobs)
         vfsk.W.cleanup()
         vfsk.load('release', log=chk.log)
         part_a(chk, oracle, jobs, B['a_release'], 'release')
